@@ -9,7 +9,8 @@
 (*   run                                                                   *)
 (*   stopi {by} | stopr {by}        Stop called / returned (by: 0 owner,   *)
 (*                                  c: the callee of running call c)       *)
-(*   inv    {c, h, fail, pre}       caller c enters AsyncCall              *)
+(*   inv    {c, h, fail, pre, kd}   caller c enters AsyncCall (kd: kind of *)
+(*                                  what its callee will hand back)        *)
 (*   start  {c, lane, g}            callee entered: lane index it was      *)
 (*                                  given (g: goroutine, for the reader)   *)
 (*   end    {c}                     callee about to return                 *)
@@ -21,6 +22,8 @@
 (*   term                           the owner's wait for termination (wait *)
 (*                                  group / WaitStop) has just returned    *)
 (*   cfg    {nl, q}                 what SlotSize and QSize / Size report  *)
+(*   burst  {n, own, entered, overlap, disorder, wronglane}   n calls one  *)
+(*                                  after the other, counted by the harness *)
 (*   quiet  {alive, term, final}    every goroutine is parked: some        *)
 (*                                  goroutine of the executor is left,     *)
 (*                                  owner's wait for termination returned; *)
@@ -99,6 +102,19 @@ TTerm ==
   /\ \A x \in LaneIds : ~up'[x]
   /\ UNCHANGED last
 
+(* A long run: n calls made one after the other through a started, idle      *)
+(* executor that nobody has stopped, logged run-length encoded.  Each of     *)
+(* them is accepted (nothing is queued or running when it arrives), runs     *)
+(* once on the lane of its hash, alone and in order, and its caller gets its *)
+(* own result - n times over, whatever n is.                                 *)
+TBurst(e) ==
+  /\ started /\ stopst = "no"
+  /\ \A x \in LaneIds : Used(x) => (up[x] /\ ~Busy(x) /\ queue[x] = <<>>)
+  /\ \A c \in Calls : cw[c] \in {"idle", "back"}
+  /\ e.own = e.n /\ e.entered = e.n
+  /\ e.overlap = 0 /\ e.disorder = 0 /\ e.wronglane = 0
+  /\ UNCHANGED allvars
+
 (* the getters (SlotSize, QSize / Size) report the configuration, also while calls are in flight *)
 TCfg(e) == e.nl = nl /\ e.q = qsize /\ UNCHANGED allvars
 
@@ -118,12 +134,13 @@ Consume ==
          [] e.ev = "run"    -> IF started THEN UNCHANGED allvars    \* Run again: no-op (startOnce)
                                ELSE Step([op |-> "run"])
          [] e.ev = "term"   -> TTerm
+         [] e.ev = "burst"  -> TBurst(e)
          [] e.ev = "cfg"    -> TCfg(e)
          [] e.ev = "stopi"  -> IF stopst = "no" THEN Step([by |-> e.by, op |-> "stopi"])
                                ELSE UNCHANGED allvars                      \* Stop again: no-op
          [] e.ev = "stopr"  -> IF stopst = "ing" THEN Step([op |-> "stopr"])
                                ELSE stopst = "done" /\ UNCHANGED allvars  \* a second Stop returning
-         [] e.ev = "inv"    -> Step([c |-> e.c, fail |-> e.fail, h |-> e.h, op |-> "inv", pre |-> e.pre])
+         [] e.ev = "inv"    -> Step([c |-> e.c, fail |-> e.fail, h |-> e.h, kd |-> e.kd, op |-> "inv", pre |-> e.pre])
                               
          [] e.ev = "end"    -> Step([c |-> e.c, op |-> "end"])
          [] e.ev = "ret"    -> Step([c |-> e.c, op |-> "ret", r |-> e.r])
